@@ -29,6 +29,8 @@ func runC05(c *Ctx, r *Report) {
 	c06R3(c, r, "C05.R8")
 	c06R4(c, r, "C05.R9")
 	c06R10(c, r, "C05.R10")
+	c02Router(c, r, "C05.R11") // nothing runs after aborted matching, also below a route that was not terminal (route-loop exploration)
+	c02R1(c, r, "C05.R12")     // the combinators hand need-more up: an undecided set is never overridden by a later set's "no"
 }
 
 func c05R1(c *Ctx, r *Report, rule string) {
